@@ -156,6 +156,8 @@ def check_path(word, acc, only=None):
     zs = []
     for s in segs:
         zs += [z for fam, z in query_points(s) if fam in ('far', 'near', 'beyond_end', 'lattice')][::3]
+    # points exactly on the path: its start, every joint, its end, and interior points of each segment
+    zs += [segs[0].start] + [s.end for s in segs] + [s.point(0.5) for s in segs]
     for z in zs:
         case = {'what': 'path', 'word': list(word), 'z': core.jz(z)}
         if only and case['z'] != only:
